@@ -237,6 +237,17 @@ let script_apply (s : state) (a : string) : state * string =
       let c = if (s.lat.locks i).lstale then 0 else (try Hashtbl.find commits ii with Not_found -> 0) in
       (settle (ex s (LUnlock (i, n_i c))), "-")
   | 'X' -> (quiesce (ex s LClose), "-")
+  | 'Q' ->
+      (* the even returned locks are sent while run() is stuck with the first one in hand; Close(); run() drains *)
+      let todo = List.filter (fun ii -> ii mod 2 = 0 && s.pc (nat_of_int ii) = TDone) (List.init !ntx (fun x -> x)) in
+      let unl st ii = exec sf (ns ()) st (LUnlock (nat_of_int ii, n_i (try Hashtbl.find commits ii with Not_found -> 0))) in
+      (match todo with
+       | [] -> (quiesce (ex s LClose), "pending=0 closed")
+       | first :: rest ->
+           let cur = ref (ex (match unl s first with Some x -> x | None -> raise Disabled) LPop) in
+           List.iter (fun ii -> match unl !cur ii with Some x -> cur := x | None -> raise Disabled) rest;
+           let res = Printf.sprintf "pending=%d closed" (List.length !cur.chan) in
+           (quiesce (ex !cur LClose), res))
   | 'N' -> (s, "-")   (* a commit that must bypass the latches: nothing happens *)
   | 'M' ->
       let todo = List.filter (fun ii -> s.pc (nat_of_int ii) = TDone) (List.init !ntx (fun x -> x)) in
